@@ -117,7 +117,7 @@ def stepSealed (s : DState) (w : List String) : DState × String :=
         if prop && (h ≠ depth || h = 0) then (s, "bad-op") else
         let r := if op == "release" || op == "prelease" then s.buf.release h else s.buf.cleanup h
         match r with
-        | none => (s, "panic")
+        | none => (s, "refused")
         | some b =>
           let popped := h = depth && h ≠ 0
           let s' : DState := if popped then { s with buf := b, stageViews := s.stageViews.tail, cps := [] } else { s with buf := b }
